@@ -607,19 +607,6 @@ func (r *Runner) runStep(sc *Scenario, i int, step Step, w *world, M, srcDir, ou
 		if act.Exit != 0 && r.diagnostic(act.Stderr) == "" {
 			add(i, "C17", "failure-without-diagnostic", "stdout-write:"+step.Fault.Action, "moq %s exited %d but standard error holds nothing beyond the usage text", strings.Join(refArgs, " "), act.Exit)
 		}
-		// after a failed write to standard output nothing more may be written to it
-		failedAt := -1
-		for k, e := range act.Log {
-			if e.Prim == "write" && e.Path == "<stdout>" {
-				if failedAt >= 0 {
-					add(i, "C17", "wrote-on-after-write-error", "", "moq %s kept writing to standard output after a write to it had failed", strings.Join(refArgs, " "))
-					break
-				}
-				if e.Fault != "" {
-					failedAt = k
-				}
-			}
-		}
 		if len(fired) > 0 && act.Exit == 0 {
 			add(i, "C17", "exit-zero-on-failure", "stdout-write:"+step.Fault.Action, "writing to standard output failed (%s) but moq %s exited 0", step.Fault.Errno, strings.Join(refArgs, " "))
 		}
